@@ -75,6 +75,19 @@ def make_items(ctx, only=None):
                 raise C.InfraError('fault-free reference run failed for %s: %s %s' % (iname, ref.klass, (ref.stderr or b'')[-300:]))
             items[iname] = {'name': iname, 'tool': tool, 'dest': dest, 'template': t, 'collect': collect, 'ref': ref,
                             'W': ref.res['simf']['objects'][0]['writes']}
+    # abidw's third output path: the corpus group of a (stand-in) Linux kernel tree, written by write_corpus_group
+    for dest in ('stdout', 'file'):
+        iname = 'abidw/%s/linux-tree' % dest
+        if only and iname != only:
+            continue
+        if dest == 'stdout':
+            t, collect = {'argv': ['abidw', '--linux-tree', ctx.libs['ktree_v1']], 'simf': {'objects': [{'fd': 1}], 'faults': []}}, None
+        else:
+            t, collect = {'argv': ['abidw', '--out-file', '@RUN@/out.abi', '--linux-tree', ctx.libs['ktree_v1']], 'simf': {'objects': [{'path': '@RUN@/out.abi'}], 'faults': []}}, 'out.abi'
+        ref = ctx.run('abidw', t, collect=[collect] if collect else [])
+        if ref.klass != ('exit', 0) or b'abi-corpus-group' not in (dest_bytes(ref, collect) or b''):
+            raise C.InfraError('fault-free reference run failed for %s: %s %s' % (iname, ref.klass, (ref.stderr or b'')[-300:]))
+        items[iname] = {'name': iname, 'tool': 'abidw', 'dest': dest, 'template': t, 'collect': collect, 'ref': ref, 'W': ref.res['simf']['objects'][0]['writes']}
     # abilint's other output paths: translation-unit and corpus-group documents, and the --stdin variants
     fx = os.path.join(C.VERIF, 'pool', 'data', 'abixml')
     for label, doc, extra in (('tu', 'tu-test18.xml', []), ('group', 'group-shapes-tiny.xml', []), ('stdin-corpus', 'fnptr_v0.abi', ['--stdin']),
